@@ -57,10 +57,9 @@ def main(tier, seed):
             k = rng.choice([0, 1, 2, len(text) // 2, len(text)])
             k = min(k, len(text), 400)
             progs.append(("catN", catn(k), text[:k]))
-            k2 = min(rng.choice([0, 1, 3, 10]), max(0, len(text.split("\n")[0]) - 1))
-            first = text.split("\n")[0]
-            if len(first) >= k2 + 1 and "\n" not in text[:k2 + 1]:
-                progs.append(("revN", revn(k2), text[:k2 + 1][::-1]))
+            k2 = min(rng.choice([0, 1, 3, 10, 40]), max(0, len(text) - 1))
+            if len(text) >= k2 + 1:
+                progs.append(("revN", revn(k2), text[:k2 + 1][::-1]))      # the k2+1 characters may span several lines
             for name, src, want in progs:
                 path = os.path.join(tmp, "%s_%d.hyeong" % (name, i))
                 open(path, "w", encoding="utf-8").write(src)
@@ -101,5 +100,5 @@ def main(tier, seed):
         extra = {}
     return rep.finish(extra, rule="copy programs cat (loop until end of input), catN k (k characters), revN k (first k+1 characters reversed) x inputs with every boundary code point (U+0000, 7F/80, 7FF/800, D7FF/E000, FFFF/10000, 10FFFF), empty lines, missing final newline, 3000-character lines, many lines x levels 0-2 on the binary with real pipes; "
                       "byte-exact stdout, empty stderr, status 0 required; non-trivial = input longer than one character; distinct by program/level/input",
-                      assumptions=["UTF-8 byte<->scalar conversion is Rust std (trusted)", "the loop-until-EOF copier cannot be silent on the empty input (DESIGN §5 C14): cat is claimed for non-empty inputs",
+                      assumptions=["UTF-8 byte<->scalar conversion is Rust std (trusted)", "the loop-until-EOF copier cannot be silent on the empty input (DESIGN §5 C14): cat is claimed (and proved: cat_correct) for non-empty inputs",
                                    "compiled programs are covered by C03's check (same programs)"])
